@@ -344,3 +344,30 @@ func VxH13fifo() {
 		vxAssert(vxFSKind(o) == vxFile && vxFSOrigin(o) == "cmd", "C13.bookkeeping-names.output-at-declared-path")
 	}
 }
+
+// VxH13dotdot: output paths that go through a directory which does not exist yet and back
+// up again ("stage/../result.txt"): the file the command wrote ends up at the declared
+// path (the file-system model resolves ".." component by component, like the kernel).
+func VxH13dotdot() {
+	vxCmdFree(false, false)
+	P := []string{"stage/../result.txt", "a/b/../../x.txt", "d/../d/y.txt", "../up/q/../z.txt"}[vxChoice("path", 4)]
+	vxFSMkdirAll("/up")
+	wf := newWorkflowWithoutLogging("w", 4)
+	p := NewProc(wf, "p", "vcmd w:{o:out}")
+	p.SetOut("out", P)
+	c := NewProc(wf, "c", "vcmd r:{i:in} w:{o:out}")
+	c.SetOut("out", "c.txt")
+	c.In("in").From(p.Out("out"))
+	kind := vxRun(func() { wf.Run() })
+	vxReach("ran")
+	if P == "../up/q/../z.txt" {
+		// KF-C13-3 (listed): behind a leading ../ the not-yet-existing directory is only
+		// created under its placeholder name in the working directory, so the audit file
+		// cannot be written and the task fails (natively: "Could not write audit file")
+		vxKnown(kind == "returned", "KF-C13-3")
+		return
+	}
+	vxAssert(kind == "returned", "C13.dotdot.run-completes")
+	vxAssert(vxFSKind(P) == vxFile && vxFSOrigin(P) == "cmd", "C13.dotdot.output-at-declared-path")
+	vxAssert(vxFSKind("c.txt") == vxFile, "C13.dotdot.consumer-read-it")
+}
